@@ -892,7 +892,8 @@ func (p *partition) becomeLeader(epoch uint64) error {
 	p.leaderReplSub = sub
 
 	// Also subscribe to leader epoch offset requests subject.
-	sub, err = p.srv.ncRepl.Subscribe(p.getLeaderOffsetRequestInbox(), p.handleLeaderOffsetRequest)
+	sub, err = p.srv.ncRepl.Subscribe(
+		p.getLeaderOffsetRequestInbox(p.srv.config.Clustering.ServerID), p.handleLeaderOffsetRequest)
 	if err != nil {
 		return errors.Wrap(err, "failed to subscribe to replication inbox")
 	}
@@ -1109,10 +1110,12 @@ func (p *partition) getReplicationRequestInbox() string {
 }
 
 // getLeaderOffsetRequestInbox returns the NATS subject to send leader epoch
-// offset requests to.
-func (p *partition) getLeaderOffsetRequestInbox() string {
-	return fmt.Sprintf("%s.%s.%d.offset",
-		p.srv.config.Clustering.Namespace, p.Stream, p.Id)
+// offset requests for the given leader to. The subject is specific to the
+// leader so that a previous leader, which has not learned yet that it has been
+// replaced, cannot answer a request meant for its successor.
+func (p *partition) getLeaderOffsetRequestInbox(leader string) string {
+	return fmt.Sprintf("%s.%s.%d.offset.%s",
+		p.srv.config.Clustering.Namespace, p.Stream, p.Id, leader)
 }
 
 // autoPauseLoop is a long-running loop the leader runs to check if the
@@ -1691,7 +1694,7 @@ func (p *partition) sendLeaderOffsetRequest(leaderEpoch uint64) (int64, error) {
 		panic(err)
 	}
 	resp, err := p.srv.ncRepl.Request(
-		p.getLeaderOffsetRequestInbox(),
+		p.getLeaderOffsetRequestInbox(p.Leader),
 		data,
 		time.Second,
 	)
